@@ -169,6 +169,31 @@ def _expand(state):
                 env.close_pool()
             k2 = _key(post, m2)
             unchanged = post['exact'] == pre['exact']
+            # optional: go on in the same process on the same database (no restore) with a few further events
+            # and check the state reached - what the library may remember from before (module-level caches
+            # keyed by rowids that get re-used) only shows along such a path
+            chain = getattr(_SYS, 'chain_events', None)
+            if chain is not None and raised is None and not unchanged:
+                snap2 = None
+                for ev2 in chain(m, ev, m2):
+                    if snap2 is None:
+                        env.close_pool()
+                        snap2 = env.snapshot()
+                    else:
+                        env.restore(snap2)
+                    try:
+                        _SYS.apply(ev2, workdir)
+                        m3 = _SYS.mstep(m2, ev2)
+                        v3, _ = _SYS.check_state(m3, None, hist + [ev, ev2])
+                    except Exception as exc:     # noqa: BLE001
+                        in_wn, site = runner.exc_site(exc)
+                        if not in_wn and not isinstance(exc, env.wn.Error):
+                            raise
+                        v3 = [(f'observe:raises:{type(exc).__name__}@{site}',
+                               f'after {hist + [ev, ev2]} (one process, no restore): {exc!r}')]
+                    V = list(V) + [(a, b + ' [same process and database as the previous events]') for a, b in v3]
+                if snap2 is not None:
+                    env.restore(snap2)
             p = _snap_path(k2)
             if not p.exists():
                 tmp = p.with_suffix(f'.{os.getpid()}')
